@@ -5,3 +5,8 @@ package mapper
 
 //@ func (*Info).FieldByColumn
 //@ modifies nothing
+
+// NewInfo (C09): a struct field is accepted for a column only when its Go type
+// is exactly the column's native type.
+//@ func NewInfo
+//@ at update fields requires expType == field.Type
